@@ -3,6 +3,7 @@ package main
 import (
 	"fmt"
 	"runtime/debug"
+	"strings"
 
 	"golang.org/x/tools/go/ssa"
 )
@@ -46,7 +47,7 @@ func runPath(P *Prog, sol, alt *Solver, root Root, prefix []Dec, wantWitness boo
 					f.Chooses = append([]int64{}, e.chooses...)
 					panic(f)
 				default:
-					panic(abortf("crash", "engine crash: %v at %s\n%s", r, e.curSite(), debug.Stack()))
+					panic(abortf("crash", "engine crash: %v at %s\n%s", r, e.curSite(), shortStack()))
 				}
 			}
 		}()
@@ -113,4 +114,19 @@ func runPath(P *Prog, sol, alt *Solver, root Root, prefix []Dec, wantWitness boo
 		pr.Reason = fmt.Sprintf("engine: %v", r)
 	}
 	return
+}
+
+func shortStack() string {
+	st := string(debug.Stack())
+	lines := strings.Split(st, "\n")
+	var out []string
+	for _, l := range lines {
+		if strings.Contains(l, "/verif/engine/") && !strings.Contains(l, "path.go") {
+			out = append(out, strings.TrimSpace(l))
+			if len(out) >= 6 {
+				break
+			}
+		}
+	}
+	return strings.Join(out, " <- ")
 }
